@@ -240,6 +240,10 @@ func init() {
 		"strings.HasSuffix": func(vc *VC, fx *FuncCtx, st *State, fn *ssa.Function, args []Val, rt types.Type, instr ssa.Instruction) Val {
 			return App("strings.HasSuffix", BoolSort, args[0].(*Term), args[1].(*Term))
 		},
+		"strings.Contains": func(vc *VC, fx *FuncCtx, st *State, fn *ssa.Function, args []Val, rt types.Type, instr ssa.Instruction) Val {
+			vc.used["strings.Contains(s, sub): a pure (uninterpreted) function of its two arguments"] = true
+			return App("strings.Contains", BoolSort, args[0].(*Term), args[1].(*Term))
+		},
 		"strings.ContainsAny": func(vc *VC, fx *FuncCtx, st *State, fn *ssa.Function, args []Val, rt types.Type, instr ssa.Instruction) Val {
 			vc.used["strings.ContainsAny / IndexAny over an ASCII literal set: first index whose byte is in the set"] = true
 			s, chars := args[0].(*Term), args[1].(*Term)
@@ -323,7 +327,9 @@ func (vc *VC) hasPrefix(s, p *Term) *Term {
 		}
 		return And(cs...)
 	}
-	return App("strings.HasPrefix", BoolSort, s, p)
+	// general case: p is no longer than s and the first len(p) bytes agree
+	i := Bound("i", IntSort)
+	return And(Ge(StrLen(s), StrLen(p)), Forall([]*Term{i}, Implies(And(Le(IntC(0), i), Lt(i, StrLen(p))), Eq(StrAt(s, i), StrAt(p, i)))))
 }
 
 // indexAny: for a literal ASCII set, the least index i with s[i] in the set, or -1.
